@@ -90,6 +90,64 @@ fn check(items: &[Item], text: &str) -> Verdict {
     }
 }
 
+/// lines of text that is not TableGen; only ever placed in disabled regions. None starts with `#`
+/// or with a block comment (those take part in directive recognition at the beginning of a line).
+const JUNK: [&str; 12] = [
+    "\"abc",
+    "\"abc\\",
+    "[{ open",
+    "x /* open",
+    "}] */",
+    "def j : NoSuch { int x = ; }",
+    "!bogus $ @ \u{e9} ..",
+    "def a; #endif",
+    "x #else",
+    "string s = \"#endif",
+    "include \"nowhere.td\"",
+    "code c = [{ #ifdef A",
+];
+
+/// items with junk lines: `junk` = [(position in items, junk id)]; a junk line that the reference
+/// evaluation finds in an enabled region is dropped (it would rightly produce tokens and errors)
+fn check_with_junk(items: &[Item], junk: &[(usize, usize)], nl: &str) -> Verdict {
+    // probe: a pseudo marker at each junk position tells whether that position is enabled
+    let mut probe: Vec<Item> = Vec::new();
+    for (i, it) in items.iter().enumerate() {
+        for (k, (pos, _)) in junk.iter().enumerate() {
+            if *pos == i {
+                probe.push(Item::Marker(100_000 + k));
+            }
+        }
+        probe.push(it.clone());
+    }
+    let ev = pp::eval(&probe);
+    if ev.shape != Shape::WellNested {
+        return Verdict::Pass { nontrivial: false, labels: vec!["junk: not well nested (not asserted)"] };
+    }
+    let mut text = String::new();
+    let mut placed = 0;
+    for (i, it) in items.iter().enumerate() {
+        for (k, (pos, j)) in junk.iter().enumerate() {
+            if *pos == i && !ev.selected.contains(&(100_000 + k)) {
+                text.push_str(JUNK[*j % JUNK.len()]);
+                text.push_str(nl);
+                placed += 1;
+            }
+        }
+        text.push_str(&render(std::slice::from_ref(it), nl));
+    }
+    match check(items, &text) {
+        Verdict::Pass { .. } => Verdict::Pass { nontrivial: placed > 0, labels: vec!["junk-in-disabled"] },
+        Verdict::Fail(mut f) => {
+            // which kind of junk line is involved: the first one placed
+            let first = junk.iter().enumerate().find(|(k, (_, _))| !ev.selected.contains(&(100_000 + k))).map(|(_, (_, j))| JUNK[*j % JUNK.len()]).unwrap_or("");
+            f.sig = format!("{}:junk:{}", f.sig, first.split_whitespace().next().unwrap_or(""));
+            Verdict::Fail(f)
+        }
+        v => v,
+    }
+}
+
 fn enumerate(len: usize, first: usize, emit: Emit) {
     let mut idx = vec![0usize; len];
     idx[0] = first;
@@ -136,7 +194,7 @@ impl Property for C15 {
         "C15"
     }
     fn rule(&self) -> String {
-        "exhaustive: every sequence of length <=6 (thorough <=7) over {#define A, #define B, #ifdef A, #ifdef B, #ifndef A, #ifndef B, #else, #endif, marker `def m<i>;`}, one item per line; directives without a macro name (9 forms); random well-nested arrangements to depth 6 with LF/CRLF and trailing comments. RefPP classifies: well nested => delivered non-trivia tokens == selected markers and zero errors; unterminated at EOF / nameless directive => >=1 error; stray #else/#endif => not asserted. distinct = digest; non-trivial = nesting depth >= 2 or an #else inside a disabled region".into()
+        "exhaustive: every sequence of length <=6 (thorough <=7) over {#define A, #define B, #ifdef A, #ifdef B, #ifndef A, #ifndef B, #else, #endif, marker `def m<i>;`}, one item per line; directives without a macro name (9 forms); random well-nested arrangements to depth 6 with LF/CRLF and trailing comments; the same with 1..4 lines of text that is not TableGen placed in disabled regions (unterminated string / string ending in a backslash / code fragment / block comment opened mid-line, stray closers, mid-line directives, faulty declarations; never starting with '#' or '/*'). RefPP classifies: well nested => delivered non-trivia tokens == selected markers and zero errors; unterminated at EOF / nameless directive => >=1 error; stray #else/#endif => not asserted. distinct = digest; non-trivial = nesting depth >= 2 or an #else inside a disabled region".into()
     }
     fn assumptions(&self) -> Vec<String> {
         vec!["RefPP written from the Programmer's Reference: a macro is defined only by an enabled #define; no macro is predefined".into()]
@@ -166,6 +224,30 @@ impl Property for C15 {
                 }
             }
         }));
+        // text that is not TableGen inside disabled regions (unterminated strings / comments / code
+        // fragments, mid-line directives): a disabled region is skipped line by line
+        v.push(Family::new("junk-in-disabled", ctx.tier.pick(60, 600), |_c, rng, emit| {
+            for _ in 0..250 {
+                let mut codes = Vec::new();
+                // start inside a conditional more often than not
+                if rng.chance(2, 3) {
+                    codes.push(2 + rng.below(4));
+                    random_nested(rng, 1, &mut codes);
+                    if rng.chance(1, 2) {
+                        codes.push(6);
+                        random_nested(rng, 1, &mut codes);
+                    }
+                    codes.push(7);
+                } else {
+                    random_nested(rng, 0, &mut codes);
+                }
+                let n = 1 + rng.below(4);
+                let junk: Vec<_> = (0..n).map(|_| json!([rng.below(codes.len() + 1), rng.below(JUNK.len())])).collect();
+                if !emit(json!({"kind": "pp-junk", "codes": codes, "junk": junk, "style": rng.below(2)})) {
+                    return;
+                }
+            }
+        }));
         v.push(Family::new("random-deep", ctx.tier.pick(40, 400), |_c, rng, emit| {
             for _ in 0..250 {
                 let mut codes = Vec::new();
@@ -190,6 +272,13 @@ impl Property for C15 {
                     _ => "\n",
                 };
                 check(&items, &render(&items, nl))
+            }
+            Some("pp-junk") => {
+                let (Some(codes), Some(junk)) = (case["codes"].as_array(), case["junk"].as_array()) else { return Verdict::Skip("malformed-case") };
+                let codes: Vec<usize> = codes.iter().filter_map(|c| c.as_u64()).map(|c| c as usize % NITEMS).collect();
+                let items = codes_to_items(&codes);
+                let junk: Vec<(usize, usize)> = junk.iter().filter_map(|j| Some((j[0].as_u64()? as usize, j[1].as_u64()? as usize))).collect();
+                check_with_junk(&items, &junk, if case["style"].as_u64() == Some(1) { "\r\n" } else { "\n" })
             }
             Some("sem-pp") => embedded(case),
             Some("pp-nameless") => {
